@@ -935,11 +935,17 @@ def _run_manager_from_cli_worker(input_file_path: Path, output_directory: Path) 
 @click.option("--validate-only", default=False, is_flag=True, show_default=False, help="Validate input file and exit.")
 @click.option("-c", "--convert", help="Convert output to specified format. Options supported: 'IDF'.")
 def run_manager_from_cli(input_path, output_directory, validate_only, convert):
+    # click discards the value a command callback returns: pass the status to the process explicitly
+    exit(_run_manager_from_cli_status(input_path, output_directory, validate_only, convert))
+
+
+def _run_manager_from_cli_status(input_path, output_directory, validate_only, convert) -> int:
     input_path = Path(input_path).resolve()
 
     if validate_only:
         try:
-            validate_input_file(input_path)
+            if validate_input_file(input_path) != 0:
+                return 1
             logger.info("Valid input file.")
             return 0
         except ValidationError:
